@@ -18,7 +18,8 @@
       (2) every peer is an ipBlock, a namespaceSelector-only peer, or a podSelector-only peer all of whose matching
           pods live in the policy's namespace; no namespaceSelector+podSelector peer                  [K6a, K6b outside]
       (3) at most one ipBlock per rule; 32-bit CIDRs; every exception is a strictly longer prefix than its block
-          (so the block and an exception never print to the same ipset element, K5d)                      [K6d outside]
+          (so the block and an exception never print to the same ipset element, K5d, and an exception containing
+          the address is the most specific element of the hash:net set: it decides, [hashnet_match])     [K6d outside]
       (4) every port entry is numeric with protocol "tcp" or "udp"
       well-formedness: policy keys (name_namespace) distinct, pod keys distinct, pod addresses 32-bit and pairwise
       distinct.
@@ -213,16 +214,84 @@ Proof.
   - unfold net_contains. rewrite b_mask_idem. reflexivity.
 Qed.
 
-Lemma hashnet_match : forall cd ex a, cidr_ok cd = true -> forallb cidr_ok ex = true ->
+(** ---- hash:net: the most specific element containing the address decides *)
+Lemma b_elem_len_str cd : cidr_ok cd = true -> elem_len (cidr_str cd) = snd cd.
+Proof.
+  intros H. unfold elem_len. rewrite b_parse_cidr_str by assumption.
+  destruct (N.eqb_spec (snd cd) 32) as [E|E]; [symmetry; exact E|reflexivity].
+Qed.
+
+Lemma best_len_cons e es a :
+  best_len (e :: es) a = if addr_elem_match (fst e) a then N.max (elem_len (fst e)) (best_len es a) else best_len es a.
+Proof. reflexivity. Qed.
+
+Lemma best_len_ge es a : forall e, In e es -> addr_elem_match (fst e) a = true -> elem_len (fst e) <= best_len es a.
+Proof.
+  induction es as [|x es IH]; intros e Hin Hm; [destruct Hin|]. rewrite best_len_cons. destruct Hin as [<-|He].
+  - rewrite Hm. lia.
+  - specialize (IH e He Hm). destruct (addr_elem_match (fst x) a); lia.
+Qed.
+
+Lemma best_len_none es a : (forall e, In e es -> addr_elem_match (fst e) a = false) -> best_len es a = 0.
+Proof.
+  induction es as [|x es IH]; intros Hn; [reflexivity|]. rewrite best_len_cons, (Hn x) by (left; reflexivity).
+  apply IH. intros e He. apply Hn. right; exact He.
+Qed.
+
+Lemma best_len_hit es a : existsb (fun e => addr_elem_match (fst e) a) es = true ->
+  exists e, In e es /\ addr_elem_match (fst e) a = true /\ elem_len (fst e) = best_len es a.
+Proof.
+  induction es as [|x es IH]; intros Hx; [discriminate|]. rewrite best_len_cons. cbn [existsb] in Hx.
+  destruct (addr_elem_match (fst x) a) eqn:Ex.
+  - destruct (existsb (fun e => addr_elem_match (fst e) a) es) eqn:Et.
+    + destruct (IH eq_refl) as [e [He [Hm Hl]]].
+      destruct (N.max_spec (elem_len (fst x)) (best_len es a)) as [[_ ->]|[_ ->]].
+      * exists e. split; [right; exact He|]. split; assumption.
+      * exists x. split; [left; reflexivity|]. split; [exact Ex|reflexivity].
+    + rewrite (best_len_none es a).
+      * exists x. split; [left; reflexivity|]. split; [exact Ex|]. lia.
+      * intros e He. destruct (addr_elem_match (fst e) a) eqn:Em; [|reflexivity].
+        assert (existsb (fun e => addr_elem_match (fst e) a) es = true) as Hc
+          by (apply existsb_exists; exists e; split; assumption).
+        rewrite Hc in Et. discriminate.
+  - destruct (IH Hx) as [e [He [Hm Hl]]]. exists e. split; [right; exact He|]. split; assumption.
+Qed.
+
+Lemma b_nm_plain (g h : str * bool -> bool) (ex : list (N * N)) :
+  existsb (fun e => negb (snd e) && g e && h e) (map (fun e : N * N => (cidr_str e, true)) ex) = false.
+Proof. induction ex as [|e ex IH]; [reflexivity|]. cbn [map existsb snd negb andb orb]. exact IH. Qed.
+
+(** a block with its exceptions in one set: the kernel's rule gives the ipBlock semantics when every exception is a
+    strictly longer prefix than the block (then an exception containing the address is the more specific element) *)
+Lemma hashnet_match : forall cd ex a, cidr_ok cd = true ->
+  forallb (fun e => cidr_ok e && (snd cd <? snd e)) ex = true ->
   elems_match HashNet ((cidr_str cd, false) :: map (fun e => (cidr_str e, true)) ex) a = block_ok cd ex a.
 Proof.
-  intros cd ex a Hcd Hex. unfold elems_match, block_ok. cbn [existsb fst snd negb andb].
-  rewrite addr_cidr_match by assumption. f_equal.
-  - replace (existsb _ _) with false; [apply orb_false_r|]. symmetry.
-    clear. induction ex as [|e ex IH]; [reflexivity|]. cbn. exact IH.
-  - rewrite orb_false_l. induction ex as [|e ex IH]; [reflexivity|]. cbn [forallb] in Hex. apply andb_prop in Hex. destruct Hex as [He Hex].
-    cbn [map existsb forallb fst snd andb]. rewrite negb_orb. rewrite addr_cidr_match by assumption.
-    f_equal. apply IH. exact Hex.
+  intros cd ex a Hcd Hex. unfold elems_match, block_ok. cbv zeta. rewrite best_len_cons.
+  cbn [existsb fst snd negb andb]. rewrite addr_cidr_match, b_elem_len_str by assumption.
+  rewrite b_nm_plain.
+  rewrite forallb_forall in Hex.
+  destruct (net_contains (fst cd) (snd cd) a) eqn:C; [|reflexivity]. cbn [andb orb].
+  destruct (forallb (fun e => negb (net_contains (fst e) (snd e) a)) ex) eqn:Fx.
+  - assert (Hn : forall e, In e (map (fun e : N * N => (cidr_str e, true)) ex) -> addr_elem_match (fst e) a = false).
+    { intros e He. apply in_map_iff in He. destruct He as [y [<- Hy]]. cbn [fst].
+      specialize (Hex y Hy). apply andb_true_iff in Hex. destruct Hex as [Hy1 _].
+      rewrite addr_cidr_match by assumption. rewrite forallb_forall in Fx. specialize (Fx y Hy).
+      apply negb_true_iff in Fx. exact Fx. }
+    rewrite (best_len_none _ a Hn). rewrite N.max_0_r, N.eqb_refl. cbn [andb].
+    replace (existsb _ _) with false; [reflexivity|]. symmetry. apply existsb_false. intros e He.
+    rewrite (Hn e He). rewrite andb_false_r. reflexivity.
+  - replace (snd cd =? _) with false; [reflexivity|]. symmetry. apply N.eqb_neq.
+    assert (exists y, In y ex /\ net_contains (fst y) (snd y) a = true) as [y [Hy Cy]].
+    { destruct (existsb (fun e => net_contains (fst e) (snd e) a) ex) eqn:Ee.
+      - apply existsb_exists in Ee. exact Ee.
+      - exfalso. rewrite existsb_false in Ee. assert (forallb (fun e => negb (net_contains (fst e) (snd e) a)) ex = true) as Hc.
+        { apply forallb_forall. intros e He. rewrite (Ee e He). reflexivity. }
+        rewrite Hc in Fx. discriminate. }
+    specialize (Hex y Hy). apply andb_true_iff in Hex. destruct Hex as [Hy1 Hy2]. apply N.ltb_lt in Hy2.
+    pose proof (best_len_ge (map (fun e : N * N => (cidr_str e, true)) ex) a (cidr_str y, true)) as Hg.
+    cbn [fst] in Hg. rewrite addr_cidr_match, b_elem_len_str in Hg by assumption.
+    specialize (Hg (in_map _ _ _ Hy) Cy). lia.
 Qed.
 
 Lemma cidr_str_strict : forall cd e, cidr_ok cd = true -> cidr_ok e = true -> snd cd < snd e ->
@@ -569,8 +638,7 @@ Proof.
   cbn [List.length] in Hl. assert (Hn : filter is_block qs = []) by (apply p_le0_nil; lia).
   rewrite (p_net_none qs Hn), app_nil_r, (p_noblock_false _ qs Hn), orb_false_r.
   cbn [peer_ok]. apply andb_true_iff in Hq. destruct Hq as [Hc Hx].
-  apply hashnet_match; auto. rewrite forallb_forall in *. intros e He. specialize (Hx e He).
-  apply andb_true_iff in Hx. tauto.
+  apply hashnet_match; auto.
 Qed.
 
 Lemma peer_sets_match : forall (H : str -> str) c x ipk netk i r a,
@@ -713,14 +781,30 @@ Proof.
     rewrite (a_elems_sub_existsb l2 l1 f S2 E2) in E1. discriminate.
 Qed.
 
+Lemma a_best_len_sub (l1 l2 : list (str * bool)) a : elems_sub l1 l2 = true -> best_len l1 a <= best_len l2 a.
+Proof.
+  intros Hs. destruct (existsb (fun e => addr_elem_match (fst e) a) l1) eqn:E1.
+  - destruct (best_len_hit l1 a E1) as [e [He [Hm <-]]].
+    unfold elems_sub in Hs. rewrite forallb_forall in Hs. specialize (Hs e He). apply existsb_exists in Hs.
+    destruct Hs as [x [Hx Hq]]. apply andb_true_iff in Hq. destruct Hq as [Q1 _]. apply str_eqb_eq in Q1.
+    rewrite Q1. apply best_len_ge; [exact Hx|]. rewrite <- Q1. exact Hm.
+  - rewrite (best_len_none l1 a); [apply N.le_0_l|]. rewrite existsb_false in E1. exact E1.
+Qed.
+
+Lemma a_best_len_eqv (l1 l2 : list (str * bool)) a :
+  elems_sub l1 l2 = true -> elems_sub l2 l1 = true -> best_len l1 a = best_len l2 a.
+Proof. intros S1 S2. pose proof (a_best_len_sub l1 l2 a S1). pose proof (a_best_len_sub l2 l1 a S2). lia. Qed.
+
 Lemma a_cset_eqv_match cs x a :
   cset_eqv cs x = true -> elems_match (s_type x) (s_elems x) a = elems_match (cs_type cs) (cs_elems cs) a.
 Proof.
   unfold cset_eqv. rewrite !andb_true_iff. intros [[T S1] S2]. apply settype_eqb_eq in T. rewrite <- T.
   unfold elems_match. destruct (cs_type cs); [| |reflexivity].
   - apply a_elems_eqv_existsb; assumption.
-  - rewrite (a_elems_eqv_existsb _ _ (fun e => negb (snd e) && addr_elem_match (fst e) a) S2 S1).
-    rewrite (a_elems_eqv_existsb _ _ (fun e => snd e && addr_elem_match (fst e) a) S2 S1). reflexivity.
+  - cbv zeta. rewrite (a_best_len_eqv _ _ a S2 S1).
+    rewrite (a_elems_eqv_existsb _ _ (fun e => negb (snd e) && addr_elem_match (fst e) a && (elem_len (fst e) =? best_len (cs_elems cs) a)) S2 S1).
+    rewrite (a_elems_eqv_existsb _ _ (fun e => snd e && addr_elem_match (fst e) a && (elem_len (fst e) =? best_len (cs_elems cs) a)) S2 S1).
+    reflexivity.
 Qed.
 
 (** (4) FORWARD only ever gains rules during syncPods *)
